@@ -1211,6 +1211,13 @@ def ms_bounds(rng, n):
             go.end = start + timedelta(days=rng.randint(20, 30), hours=rng.choice([9, 13, 17]))
             if rng.random() < 0.5:
                 p.add_task("mark", parent=roll, milestone=True, deps=[(go, False, 0)]).end = go.end + timedelta(hours=rng.choice([0, 24]))
+            if rng.random() < 0.5:
+                # a dated event inside a backward work package that has a deadline: the event stays where the user put it
+                # (start = end), whatever the deadline of the package
+                box = p.add_task("box")
+                box.end = start + timedelta(days=rng.randint(18, 28), hours=rng.choice([12, 17]))
+                p.add_task("kick", parent=box, milestone=rng.random() < 0.6, start=start + timedelta(days=rng.randint(3, 9), hours=rng.choice([9, 10, 15])))
+                p.add_task("work", parent=box, effort=G * rng.randint(2, 9), alloc=[rng.choice(rs)])
         out.append(("msb%04d" % i, p))
     return out
 
